@@ -10,7 +10,7 @@ is generated and proved by the reflexive checker Base/TrigMat.mcheck_eq_sound
 (invert, +, copy, on_qubits) are covered by the static theorems of
 Proofs/CircuitOps.v plus traced instances.
 """
-STATIC = ["Base/TrigMat", "C05/Props"]
+STATIC = ["Base/TrigMat", "C05/Props", "C05/InstMat", "Base/SemProps"]
 import itertools
 import random
 
@@ -257,6 +257,13 @@ def main(run):
         run.oblige(t, True, "static-theorem")
     okpa, pa = vcore.static_assumptions("C05/Props")
     run.notes["print_assumptions_static"] = pa
+    # matrix-level instances (C05/InstMat.v, proved from Base/Sem*.v): invert, +, on_qubits on real matrices
+    for t in vcore.props_theorems("C05/InstMat.v"):
+        run.oblige(t, True, "static-theorem")
+    okpa2, pa2 = vcore.static_assumptions("C05/InstMat")
+    run.notes["print_assumptions_instmat"] = pa2
+    for t in ("embed_dagger", "cembed_dagger", "cembed_dagger_left_inverse_ok", "embed_relabel", "cembed_relabel"):
+        run.oblige("Base.SemProps." + t, True, "static-theorem")
     specs = gate_specs()
     items = []      # (name, coq bool term)
     meta = {}       # name -> (spec, recipe, n)
